@@ -22,8 +22,10 @@ impl Duration {
         ensures r.nanos() == seconds as int * 1_000_000_000 + nanoseconds as int
     { unimplemented!() }
 
+    // validated by Kani for non-negative operands only (kani/src/lib.rs duration_checked_add_nonneg), hence the precondition
     #[verifier::external_body]
     pub fn checked_add(self, rhs: Duration) -> (r: Option<Duration>)
+        requires self.nanos() >= 0, rhs.nanos() >= 0,
         ensures match r {
             Some(d) => d.nanos() == self.nanos() + rhs.nanos() && dur_ok(d.nanos()),
             None => !dur_ok(self.nanos() + rhs.nanos()),
